@@ -2,6 +2,7 @@ import Capella.Driver.Util
 import Capella.Model.Geom
 import Capella.Model.GeomEdge
 import Capella.Model.GeomTree
+import Capella.Model.GeomCircle
 /-!
 Line-protocol driver for `Capella.Geom` (property C17).
 
@@ -189,6 +190,18 @@ def treeAnswer (oh m : Rat) (n : Node) : Json :=
 
 def handle (op : String) (j : Json) : Except String Json := do
   match op with
+  | "circle" =>
+    -- residuals of the relation `circleSnapRel` on a given (float) result: all three are 0 resp. >= 0 for the exact point
+    let c ← v2Of (← get j "c")
+    let radius ← ratOf (← get j "r")
+    let vector ← v2Of (← get j "vector")
+    let source ← v2Of (← get j "source")
+    let d := circleDir c vector source
+    if d = ⟨0, 0⟩ then pure (Json.mkObj [("e", Json.str "noDirection"), ("br", toJson ["circle:no-direction"])]) else
+    let res ← v2Of (← get j "res")
+    pure (Json.mkObj [("onCircle", jrat ((res - c).sqlength - radius * radius)), ("cross", jrat (cross (res - c) d)),
+      ("dot", jrat ((res - c).dot d)), ("dlen2", jrat d.sqlength), ("holds", Json.bool (decide (circleSnapRel c radius vector source res))),
+      ("br", toJson [if vector = c then "circle:from-centre-towards-source" else "circle:through-the-point"])])
   | "tree" => pure (treeAnswer (← ratOf (← get j "overhang")) (← ratOf (← get j "margin")) (← nodeOf (← get j "root")))
   | "edge" => pure (edgeAnswer (← edgeInOf j))
   | "snapEnd" =>
